@@ -94,6 +94,15 @@ def sliceMid {β : Type} (l : List β) (a b : Nat) : List β :=
 /-- `Xt.reshape(Xt.shape[0], -1)` on one instance: variable-major concatenation -/
 def flattenInst (i : Inst α) : Inst α := [i.flatten]
 
+/-- `A.reshape(A.shape[0], -1)` on one instance for the tabular scitype, unchanged otherwise -/
+def toSci (sci : Scitype) (inst : Inst α) : Inst α :=
+  match sci with
+  | .tabular => flattenInst inst
+  | .panel => inst
+
+/-- `n_variables` of `z.shape` (an empty `y` still reshapes to `(0, 1)`) -/
+def nVars (z : List (List α)) : Nat := match z with | [] => 1 | r :: _ => r.length
+
 /-- `_sliding_window_transform(y, window_length, fh, X, scitype)` → `(yt, Xt)`;
 `fh` = relative steps in the order stored by `ForecastingHorizon` (ascending). -/
 def swt (V : Vals α) (y : List α) (wl : WLRaw) (fh : List Int) (X : Option (List (List α)))
@@ -101,7 +110,7 @@ def swt (V : Vals α) (y : List α) (wl : WLRaw) (fh : List Int) (X : Option (Li
   let wl ← checkWindowLength wl
   let z := concatYX y X
   let n := z.length
-  let nv := match z with | [] => 1 | r :: _ => r.length
+  let nv := nVars z
   let idx ← checkFhIdx fh
   match idx.getLast? with
   | none => .error .index                        -- fh[-1] on an empty array
@@ -133,6 +142,12 @@ def allOut (fh : List Int) : Bool := fh.all fun h => decide (0 < h)
 def wlRawOf : Option Nat → WLRaw
   | none => .none
   | some w => .int w
+
+/-- `Xt.shape[2]` of a `(rows, 1, ·)` array -/
+def lastDim (Xt : List (Inst α)) : Nat :=
+  match Xt with
+  | [] => 0
+  | inst :: _ => (inst.headD []).length
 
 /-- The `(X, y)` pairs passed to `clone(estimator).fit`, in call order, for each `_fit`.
 `wlRaw` = `self.window_length` (used by direct/multioutput/dirrec), `wl_` = `self.window_length_`
@@ -172,15 +187,11 @@ def fitJobs (V : Vals α) (s : Strategy) (sci : Scitype) (wlRaw : WLRaw) (wl_ : 
           let (yt, Xt) ← swt V y wlRaw fh none sci
           -- X_full = concatenate([Xt (rows,1,wl), yt[:,None,:]], axis=2);  n_timepoints = Xt.shape[2]
           let xFull := List.zipWith (fun (inst : Inst α) (ytr : List α) => inst.map fun var => var ++ ytr) Xt yt
-          let ntp := match Xt with
-            | [] => 0
-            | inst :: _ => (inst.headD []).length
+          let ntp := lastDim Xt
           pure ((List.range fh.length).map fun i =>
-            let xFit := xFull.map fun inst => inst.map fun var => var.take (ntp + i)
-            let xFit := match sci with
-              | .tabular => xFit.map flattenInst
-              | .panel => xFit
-            (xFit, Target.vec (column V yt i)))
+            -- X_full[:, :, :n_timepoints + i], reshaped to 2d for the tabular scitype
+            (xFull.map fun inst => toSci sci (inst.map fun var => var.take (ntp + i)),
+             Target.vec (column V yt i)))
 
 /-- a regressor: training data ↦ fitted predictor (single-target and multi-target use) -/
 structure Regressor (α : Type) where
@@ -223,6 +234,12 @@ def transposeRows (V : Vals α) (rows : List (List α)) (nc : Nat) : List (List 
 
 def nCols (X : List (List α)) : Nat := match X with | [] => 0 | r :: _ => r.length
 
+/-- `self._X.shape[1]` (0 when no exogenous data was given) -/
+def xCols (X : Option (List (List α))) : Nat :=
+  match X with
+  | none => 0
+  | some rows => nCols rows
+
 /-- numpy `dst[0, :, :] = src` for `dst` of shape `(1, A, B)` and `src` of shape `(a, b)`:
 broadcast or ValueError -/
 def bcast2 (V : Vals α) (src : List (List α)) (a b A B : Nat) : Except Err (List (List α)) :=
@@ -231,14 +248,16 @@ def bcast2 (V : Vals α) (src : List (List α)) (a b A B : Nat) : Except Err (Li
       ((src.getD (if a = 1 then 0 else i) [])).getD (if b = 1 then 0 else j) V.zero)
   else .error .value
 
+/-- the pre-allocated and filled `X_pred` of shape `(1, n_columns, window_length)`:
+`X_pred[:, 0, :] = y_last; X_pred[:, 1:, :] = X_last.T` -/
+def predCube (V : Vals α) (yLast : List α) (XLast : Option (List (List α))) (nc : Nat) : Inst α :=
+  match XLast with
+  | none => [yLast]
+  | some rows => yLast :: transposeRows V rows nc
+
 /-- `X_pred` of `_DirectReducer` / `_MultioutputReducer._predict_last_window` -/
 def predInst (V : Vals α) (sci : Scitype) (yLast : List α) (XLast : Option (List (List α))) (nc : Nat) : Inst α :=
-  let inst := match XLast with
-    | none => [yLast]
-    | some rows => yLast :: transposeRows V rows nc
-  match sci with
-  | .tabular => flattenInst inst
-  | .panel => inst
+  toSci sci (predCube V yLast XLast nc)
 
 def applyEst (e : Est α) (x : Inst α) : α :=
   match e with
@@ -273,13 +292,26 @@ def recLoop (f : Inst α → α) (k : Nat) (sci : Scitype) (wl : Nat) (exo : Lis
     (steps : Nat) → (i : Nat) → (yrow : List α) → List (Call α) × List α
   | 0, _, _ => ([], [])
   | m + 1, i, yrow =>
-    let xp : Inst α := ((yrow.drop i).take wl) :: exo.map fun r => (r.drop i).take wl   -- last[:, :, i:wl+i]
-    let xp := match sci with
-      | .tabular => flattenInst xp
-      | .panel => xp
+    let xp : Inst α := toSci sci (((yrow.drop i).take wl) :: exo.map fun r => (r.drop i).take wl)   -- last[:, :, i:wl+i]
     let p := f xp
     let (cs, ps) := recLoop f k sci wl exo m (i + 1) (yrow.set (wl + i) p)             -- last[:, 0, wl+i] = y_pred[i]
     (Call.predict k xp [p] :: cs, p :: ps)
+
+/-- rows `1..` of the array `last` of `_RecursiveReducer._predict_last_window`:
+`last[:, 1:, :wl] = X_last.T;  last[:, 1:, wl:] = X.T`  (`n_columns` is taken from the `X` passed to predict) -/
+def recExo (V : Vals α) (wl fhMax : Nat) (XLast Xp : Option (List (List α))) : Except Err (List (List α)) :=
+  match Xp with
+  | none => .ok []
+  | some xp =>
+    match XLast with
+    | none => .error .attr                                   -- None.T
+    | some xl =>
+      let c' := nCols xp
+      let c := nCols xl
+      do
+        let a ← bcast2 V (transposeRows V xl c) c xl.length c' wl          -- last[:, 1:, :wl] = X_last.T
+        let b ← bcast2 V (transposeRows V xp c') c' xp.length c' fhMax     -- last[:, 1:, wl:] = X.T
+        pure (List.zipWith (· ++ ·) a b)
 
 /-- `_RecursiveReducer._predict_last_window`; `Xp` = the `X` passed to `predict` (by rows) -/
 def recursivePredict (V : Vals α) (sci : Scitype) (wl : Nat) (ests : List (Nat × Est α))
@@ -289,26 +321,13 @@ def recursivePredict (V : Vals α) (sci : Scitype) (wl : Nat) (ests : List (Nat 
   else if !isPredictable V wl yLast then .ok ([], fh.map fun _ => V.nan)
   else
     let fhMax := (fh.getLast?.getD 0).toNat
-    let exoE : Except Err (List (List α)) :=
-      match Xp with
-      | none => .ok []
-      | some xp =>
-        match XLast with
-        | none => .error .attr                                   -- None.T
-        | some xl =>
-          let c' := nCols xp
-          let c := nCols xl
-          do
-            let a ← bcast2 V (transposeRows V xl c) c xl.length c' wl          -- last[:, 1:, :wl] = X_last.T
-            let b ← bcast2 V (transposeRows V xp c') c' xp.length c' fhMax     -- last[:, 1:, wl:] = X.T
-            pure (List.zipWith (· ++ ·) a b)
-    match exoE with
+    match recExo V wl fhMax XLast Xp with
     | .error e => .error e
     | .ok exo =>
       match ests with
       | (k, e) :: _ =>
-        let (cs, ps) := recLoop (applyEst e) k sci wl exo fhMax 0 (yLast ++ List.replicate fhMax V.zero)
-        .ok (cs, fh.map fun h => ps.getD (h - 1).toNat V.zero)               -- y_pred[fh.to_indexer()]
+        let r := recLoop (applyEst e) k sci wl exo fhMax 0 (yLast ++ List.replicate fhMax V.zero)
+        .ok (r.1, fh.map fun h => r.2.getD (h - 1).toNat V.zero)             -- y_pred[fh.to_indexer()]
       | [] => .ok ([], [])
 
 /-- loop of `_DirRecReducer._predict_last_window` over the estimators; `row` = `X_full[0, 0, :]` -/
@@ -316,10 +335,7 @@ def dirrecLoop (V : Vals α) (sci : Scitype) (wl : Nat) :
     List (Nat × Est α) → (i : Nat) → (row : List α) → List (Call α) × List α
   | [], _, _ => ([], [])
   | (k, e) :: es, i, row =>
-    let xp : Inst α := [row.take (wl + i)]                                   -- X_full[:, :, :wl+i]
-    let xp := match sci with
-      | .tabular => flattenInst xp
-      | .panel => xp
+    let xp : Inst α := toSci sci [row.take (wl + i)]                         -- X_full[:, :, :wl+i]
     let p := applyEst e xp
     let (cs, ps) := dirrecLoop V sci wl es (i + 1) (row.set (wl + i) p)      -- X_full[:, :, wl+i] = y_pred[i]
     (Call.predict k xp [p] :: cs, p :: ps)
@@ -389,6 +405,8 @@ def fit (V : Vals α) (R : Regressor α) (fc : Fc α) (t0 : Int) (y : List α) (
 /-- `update(y_new, X_new, update_params)` for a batch that continues the index contiguously -/
 def update (V : Vals α) (R : Regressor α) (fc : Fc α) (yNew : List α) (XNew : Option (List (List α)))
     (refit : Bool) : Except Err (Fc α × List (Call α)) :=
+  -- `check_y_X(y, X, allow_empty=True)` still calls `check_X(X)` with allow_empty=False
+  if yNew.isEmpty && XNew.isSome then .error .value else
   let fc1 : Fc α :=
     if yNew.isEmpty then fc
     else { fc with y := fc.y ++ yNew, cutoff := fc.cutoff + yNew.length,
@@ -412,7 +430,7 @@ def predict (V : Vals α) (fc : Fc α) (fh : Option (List Int)) (Xp : Option (Li
     else
       let wl := fc.wl_.getD 0
       let (yLast, XLast) := lastWindow fc.t0 fc.cutoff wl fc.y fc.X
-      let nc := match fc.X with | none => 0 | some rows => nCols rows
+      let nc := xCols fc.X
       let r ← match fc.strategy with
         | .direct => pure (directPredict V fc.sci wl fc.ests yLast XLast nc fh)
         | .multioutput => pure (multiPredict V fc.sci wl fc.ests yLast XLast nc fh)
